@@ -26,7 +26,7 @@ for i in ids:
 na = [{"property_id": i, "reason": "check not built yet (work in progress; see DESIGN.md section 3)"} for i in ids if i not in PROPS]
 m = {
     "version": 1,
-    "setup_cmd": "./build.sh && ./build.sh race",
+    "setup_cmd": "./build.sh && ./build.sh race && ./build.sh inst",
     "hooks": {
         "guard": "verif",
         "enable": "go test -c -tags verif (./build.sh builds /verif/sim against /repo's working tree with -tags verif)",
